@@ -44,6 +44,9 @@ def install(R: Registry):
     R.contract(V + "IntValidatorBase.validate_many#intlist", tags="C09", params=dict(value="List[Int]"), requires=["int_class(self)", "len(value) >= 0"],
                ensures=[("C09", "all_in(self, value) and len(value) > 0", "accepted only if every element is in range, wherever it occurs")],
                raises={"ValueError": [("C09", "not all_in(self, value) or len(value) == 0", "refused only if some element is out of range (or the sequence is empty)")]})
+    R.contract(V + "IntValidatorBase.validate_many#ctarray", tags="C09", params=dict(value="CArray[Int, 4]"), requires=["int_class(self)", "self._size == 1 or self._size == 2 or self._size == 4 or self._size == 8"],
+               ensures=[("C09", "forall('i:Int', implies(0 <= i and i < 4, in_dom(self, value[i])))", "a ctypes array (of any element type) is accepted only if every element is in range (bounded: length 4)")],
+               raises={"ValueError": [("C09", "exists('i:Int', 0 <= i and i < 4 and not in_dom(self, value[i]))")]})
     R.contract(V + "IntValidatorBase.__set__#int", tags="C09", params=dict(obj="MsgObj", value="Int"),
                requires=["int_class(self)", "_VALIDATION_ENABLED"],
                modifies=["$dyn.int"],
@@ -92,7 +95,7 @@ def install(R: Registry):
 VALIDATOR_TARGETS = [V + k for k in (
     "disable_message_validation",
     "IntValidatorBase.validate_one#int", "IntValidatorBase.validate_one#bool", "IntValidatorBase.validate_one#float", "IntValidatorBase.validate_one#str",
-    "IntValidatorBase.validate_one#none", "IntValidatorBase.validate_many#intlist", "IntValidatorBase.__set__#int",
+    "IntValidatorBase.validate_one#none", "IntValidatorBase.validate_many#intlist", "IntValidatorBase.validate_many#ctarray", "IntValidatorBase.__set__#int",
     "FloatValidatorBase.validate_one#float32", "FloatValidatorBase.validate_one#float64", "FloatValidatorBase.validate_one#str", "FloatValidatorBase.validate_one#none",
     "FloatValidatorBase.validate_one#int", "FloatValidatorBase.validate_many#floatlist32", "FloatValidatorBase.validate_many#floatlist64", "FloatValidatorBase.__set__#float32",
     "String.validate_one#str", "String.validate_one#int", "String.validate_one#none", "String.validate_one#float",
